@@ -125,11 +125,11 @@ type restartRW struct{ io.ReadWriter }
 
 // Env is what the instrumented features of one run share.
 type Env struct {
-	Sc   *Scenario
-	Rec  *Recorder
-	Pipe *Pipe
-	outs map[int]int // next scripted outcome per custom feature
-	step int
+	Sc                   *Scenario
+	Rec                  *Recorder
+	Pipe                 *Pipe
+	outs                 map[int]int // next scripted outcome per custom feature
+	step                 int
 	TLSClient, TLSServer *tls.Config
 }
 
